@@ -18,8 +18,10 @@ def _replays(letters, profiles):
 
 def models(tier):
     ms = []
-    ml = 3 if tier == "quick" else 4
+    ml = 4 if tier == "thorough" else 3
     for n, (u, c, t, f, letters) in enumerate(_optsets()):
+        if tier == "cross" and letters not in ("-", "uc", "tf", "uctf", "ct"):
+            continue
         consts = dict(MaxLen=ml, Vals={1, 2}, Uniq=u, Ci=c, Top=t, Fwd=f)
         tc = dict(consts, MaxLen=1000000, Vals={1, 2, 3, 4})
         def remap(segs, n=n):
@@ -52,7 +54,7 @@ def _rand(rng, steps):
 def randoms(tier, rng):
     out = []
     sets = list(_optsets())
-    picks = rng.sample(sets, 4) if tier == "quick" else sets
+    picks = rng.sample(sets, 4) if tier == "quick" else rng.sample(sets, 2) if tier == "cross" else sets
     for (u, c, t, f, letters) in picks:
         tc = dict(MaxLen=1000000, Vals={1, 2, 3, 4}, Uniq=u, Ci=c, Top=t, Fwd=f)
         out.append(dict(tag="opt-%s" % letters.replace("-", "0"), segs=[_rand(rng, 600 if tier == "quick" else 1500) for _ in range(2)],
